@@ -224,7 +224,13 @@ type RunResult struct {
 }
 
 func newExec(sh *Shared, wid int) *Exec {
-	e := &Exec{prog: sh.prog, cfg: sh.cfg, sh: sh, wid: wid, solver: NewSolver(), fninfo: map[*ssa.Function]*fnInfo{}}
+	var sv *Solver
+	if sh.cfg.Solver == "cvc5" {
+		sv = NewSolver("cvc5", "--incremental", "--tlimit-per=30000")
+	} else {
+		sv = NewSolver()
+	}
+	e := &Exec{prog: sh.prog, cfg: sh.cfg, sh: sh, wid: wid, solver: sv, fninfo: map[*ssa.Function]*fnInfo{}}
 	e.entryPkg = sh.entry.Pkg
 	if init := sh.entry.Pkg.Func("init"); init != nil {
 		e.initFns = append(e.initFns, init)
@@ -254,6 +260,7 @@ func (e *Exec) resetPath() {
 	e.utf8ok = map[*Term]*Term{}
 	e.atomVCs = nil
 	e.probes = nil
+	e.unitFloats = nil
 	e.vbounds = map[*Term]ival{}
 	e.solver.StartPath(e.shared)
 }
@@ -275,6 +282,10 @@ func (e *Exec) worker(wg *sync.WaitGroup) {
 		e.shared = -1
 		for {
 			if atomic.LoadInt32(&sh.stop) != 0 {
+				sh.mu.Lock()
+				sh.finished = true
+				sh.cond.Broadcast()
+				sh.mu.Unlock()
 				return
 			}
 			e.resetPath()
